@@ -196,6 +196,11 @@ func c15Units(tier string, seed int64) []Unit {
 			})
 		}})
 	}
+	nfree := 60
+	if !quick {
+		nfree = 600
+	}
+	units = append(units, freeRunUnit("C15", nfree))
 	return units
 }
 
